@@ -38,7 +38,7 @@ ASSUMPTIONS = ["box frequency profiles are not combined with sub-sample integrat
                "the failing frame's own data is not judged after a fault"]
 PROBES = ["callback_raised_on_frame_k>0", "interrupt_inside_later_frame", "integrate_path", "integrate_t_profile",
           "integrate_f_profile", "doppler_smearing", "slice_subset", "label_subset", "repeated_injection", "gaps_between_frames",
-          "array_path", "bounding_range", "stateful_rfi_path"]
+          "array_path", "bounding_range", "stateful_rfi_path", "noncontiguous_subset", "parent_built_with_t_overwrite"]
 MAX_LINE_POINTS = 1500
 
 
@@ -82,11 +82,13 @@ def generate(rng, tier):
     if rng.random() < 0.2:
         bounding = [rng.choice([0.1, 0.3]), rng.choice([0.6, 0.9])]
     ordered = rng.random() < 0.3
-    sel = rng.choice(["all", "all", "all", "slice", "label" if ordered else "slice"])
+    sel = rng.choice(["all", "all", "all", "slice", "label" if ordered else "slice", "stride", "index"])
     return {"seams": {"clock_origin": 1.7e9, "clock_jitter_seed": rng.randrange(1 << 20), "entropy_salt": rng.randrange(1 << 20),
                       "scratch": "c16"},
             "geom": geom, "frames": frames, "ordered": ordered, "order": rng.choice(["ABACAD", "ABABAB", "AABBCC"]),
-            "select": {"kind": sel, "a": rng.choice([0, 1]), "b": rng.choice([None, -1, 3]), "label": rng.choice(["A", "B"])},
+            "select": {"kind": sel, "a": rng.choice([0, 1]), "b": rng.choice([None, -1, 3]), "label": rng.choice(["A", "B"]),
+                       "idx": [rng.randrange(6) for _ in range(rng.choice([1, 2, 3]))]},
+            "parent_overwrite": rng.random() < 0.3,
             "path": path, "t": tprof, "f": fprof, "bp": bp, "opts": opts, "bounding": bounding,
             "repeats": rng.choice([1, 1, 2]), "t_slew": rng.choice([0.0, 10.0, 300.25]), "ops": []}
 
@@ -250,19 +252,39 @@ def execute(sc, ctx):
         ctx.hit("bounding_range")
     frames = build_frames(sc)
     fmin = frames[0].fmin
+    pkw = {"t_slew": sc["t_slew"], "t_overwrite": True} if sc.get("parent_overwrite") else {}
     if sc["ordered"]:
-        full = stg.OrderedCadence(frames[:6], order=sc["order"])
+        full = stg.OrderedCadence(frames[:6], order=sc["order"], **pkw)
     else:
-        full = stg.Cadence(frames)
+        full = stg.Cadence(frames, **pkw)
+    if pkw:
+        ctx.hit("parent_built_with_t_overwrite")
     sel = sc["select"]
+    starts_before = [f.t_start for f in full]
     if sel["kind"] == "slice":
         cad = full[sel["a"]:sel["b"]]
         ctx.hit("slice_subset")
+    elif sel["kind"] == "stride":
+        cad = full[sel["a"]::2]
+        ctx.hit("noncontiguous_subset")
+    elif sel["kind"] == "index":
+        cad = full[sorted({i % len(full) for i in sel.get("idx", [0])})]
+        ctx.hit("noncontiguous_subset")
     elif sel["kind"] == "label" and sc["ordered"]:
         cad = full.by_label(sel["label"])
         ctx.hit("label_subset")
     else:
         cad = full
+    # selecting frames is not an operation on their times: the subset holds the same frame objects
+    if not ctx.check([f.t_start for f in full] == starts_before, "select", "C16/select/subset_selection_moved_start_times/%s" % sel["kind"],
+                     lambda: "start times before %r, after taking the subset %r" % (starts_before, [f.t_start for f in full])):
+        return
+    if pkw and len(full) > 1:
+        st0 = np.asarray(full.slew_times)
+        tol0 = np.array([4 * math.ulp(max(abs(f.t_start), 1.0)) for f in list(full)[1:]])
+        if not ctx.check(np.all(np.abs(st0 - sc["t_slew"]) <= tol0), "slew", "C16/overwrite_times/slew_spacing_lost_after_selection",
+                         lambda: "slew_times %r, t_slew %r" % (st0, sc["t_slew"])):
+            return
     members = list(cad)
     all_frames = list(full)
     if len(members) == 0:
